@@ -1020,6 +1020,14 @@ def b_str(eng, x=''):
 def b_abs(eng, x):
     if isinstance(x, (int, Fraction)): return abs(x)
     if is_z3(x):
+        # a sign that the path condition already fixes keeps the term free of If (and polynomial quotients exact)
+        try:
+            if not eng.feasible(x < 0):
+                return x
+            if not eng.feasible(x > 0):
+                return concretize(-x)
+        except Exception:
+            pass
         return concretize(z3.If(x >= 0, x, -x))
     if isinstance(x, NVec): return NVec([b_abs.fn(eng, y) for y in x.items])
     if x is None: raise PyExc('TypeError', 'bad operand type for abs(): NoneType')
@@ -1506,6 +1514,16 @@ def np_dot(eng, a, b):
 @B('norm')
 def np_norm(eng, v):
     v = v if isinstance(v, NVec) else NVec(eng.iterate(v))
+    # a vector with one non-zero component: |v| = |v_k| exactly (axis-aligned distances stay linear)
+    nz = []
+    for c in v.items:
+        cs = z3.simplify(c) if is_z3(c) else c
+        if is_z3(cs) and (z3.is_rational_value(cs) or z3.is_int_value(cs)):
+            cs = Fraction(cs.numerator_as_long(), cs.denominator_as_long()) if z3.is_rational_value(cs) else cs.as_long()
+        if not (isinstance(cs, (int, Fraction)) and cs == 0):
+            nz.append(cs)
+    if len(nz) == 1:
+        return b_abs.fn(eng, nz[0])
     d = np_dot.fn(eng, v, v)
     if isinstance(d, (int, Fraction)):
         return m_sqrt.fn(eng, d)
